@@ -1,32 +1,16 @@
 import XdistModel.Driver.Util
-import XdistModel.Sched.Load
-import XdistModel.Sched.WorkSteal
-import XdistModel.Sched.LoadScope
-import XdistModel.Sched.Each
-import XdistModel.Pure.SplitScope
+import XdistModel.Sched.Iface
 /-
   Line protocol front end for the six scheduler classes.
 -/
 namespace Xdist.Driver.Sched
-open Xdist Xdist.Driver
-
-inductive Any where
-  | nosched
-  | load (s : Load.State String)
-  | ws (s : WorkSteal.State String)
-  | scope (mode : String) (s : LoadScope.State String String)
-  | each (s : Each.State String)
+open Xdist Xdist.Driver Xdist.Sched
 
 structure St where
   sched : Any := .nosched
   env : Env := {}
   specs : AList Nat Nat := []
   dead : Bool := false          -- an exception escaped: the state is no longer specified
-
-def splitOf (mode : String) : String → String :=
-  if mode = "loadfile" then SplitScope.fileKeyS
-  else if mode = "loadgroup" then SplitScope.groupKeyS
-  else SplitScope.scopeKeyS
 
 def showOut : SOut → String
   | .run n is => s!"run:{n}:{showNatList is}"
@@ -47,23 +31,7 @@ def showUnit (u : LoadScope.WUnit String) : String :=
 def showWorkload (w : LoadScope.Workload String String) : String :=
   if w.isEmpty then "-" else ";".intercalate (w.map (fun p => s!"{esc p.1}({showUnit p.2})"))
 
-def Any.nodes : Any → List Nat
-  | .nosched => [] | .load s => Load.nodes s | .ws s => WorkSteal.nodes s
-  | .scope _ s => LoadScope.nodes s | .each s => Each.nodes s
-
-def Any.tf : Any → Bool
-  | .nosched => false | .load s => Load.testsFinished s | .ws s => WorkSteal.testsFinished s
-  | .scope _ s => LoadScope.testsFinished s | .each s => Each.testsFinished s
-
-def Any.hp : Any → Bool
-  | .nosched => false | .load s => Load.hasPending s | .ws s => WorkSteal.hasPending s
-  | .scope _ s => LoadScope.hasPending s | .each s => Each.hasPending s
-
-def Any.cic : Any → Bool
-  | .nosched => false | .load s => Load.collectionIsCompleted s | .ws s => WorkSteal.collectionIsCompleted s
-  | .scope _ s => LoadScope.collectionIsCompleted s | .each s => Each.collectionIsCompleted s
-
-def Any.view : Any → String
+def viewOf : Any → String
   | .nosched => "-"
   | .load s => s!"P={showNatList s.pending} B={showBooks s.node2pending}"
   | .ws s =>
@@ -75,17 +43,6 @@ def Any.view : Any → String
     s!"Q={showWorkload s.workqueue} A={a}"
   | .each s =>
     s!"B={showBooks s.node2pending} R={showBooks s.removed2pending} S={showNatList s.started}"
-
-def Any.step (specs : AList Nat Nat) (a : Any) (e : Env) (op : SOp String) :
-    Except PyErr (Any × Env × Option String) :=
-  match a with
-  | .nosched => .error .runtime
-  | .load s => (Load.step s e op).map (fun r => (.load r.1, r.2.1, r.2.2))
-  | .ws s => (WorkSteal.step s e op).map (fun r => (.ws r.1, r.2.1, r.2.2))
-  | .scope m s => (LoadScope.step (splitOf m) s e op).map (fun r => (.scope m r.1, r.2.1, r.2.2))
-  | .each s =>
-    let spec := fun n => match AList.lookup specs n with | some k => k | none => 0
-    (Each.step spec s e op).map (fun r => (.each r.1, r.2.1, r.2.2))
 
 def parseOp (ws : List String) : Option (SOp String) :=
   match ws with
@@ -107,7 +64,7 @@ def showFlags (e : Env) (ns : List Nat) : String :=
   ",".intercalate (ns.map (fun n => s!"{n}:{showBool (e.flags.shuttingDown n)}"))
 
 def obs (st : St) : String :=
-  s!"nodes={showNatList st.sched.nodes} sd={showFlags st.env st.sched.nodes} tf={showBool st.sched.tf} hp={showBool st.sched.hp} cic={showBool st.sched.cic} | {st.sched.view}"
+  s!"nodes={showNatList st.sched.nodes} sd={showFlags st.env st.sched.nodes} tf={showBool st.sched.tf} hp={showBool st.sched.hp} cic={showBool st.sched.cic} | {viewOf st.sched}"
 
 def setFlag (st : St) (n : Nat) (f : NodeFlags → NodeFlags) : St :=
   { st with env := { st.env with flags := AList.set st.env.flags n (f (st.env.flags.get n)) } }
